@@ -2,6 +2,7 @@ package main
 
 import (
 	"encoding/json"
+	"fmt"
 	"os"
 	"path/filepath"
 	"sort"
@@ -27,6 +28,8 @@ type orderRef struct {
 	Note   string                    `json:"note"`
 	Pairs  map[string][]string       `json:"pairs"`  // function -> "A < B"
 	Counts map[string]map[string]int `json:"counts"` // function -> callee -> occurrences (of callees that are first in a pair)
+	// LoopExits: function -> number of ways it returns success (a nil error) out of the body of a loop
+	LoopExits map[string]int `json:"loop_exits"`
 }
 
 var orderGroups = groupsOf([][]string{
@@ -130,15 +133,100 @@ func orderPairs(g *ssa.Function) []string {
 	return out
 }
 
+func hasLoop(g *ssa.Function) bool {
+	for _, b := range g.Blocks {
+		if isLoopHeader(b) {
+			return true
+		}
+	}
+	return false
+}
+
+// successExitsFromLoops: the returns of g that report success (a nil error; for functions without an
+// error result: any return) and are entered from the body of a loop – `return nil` inside a loop, or
+// `break` followed by it – as opposed to the return after the loop ran to completion.
+func successExitsFromLoops(g *ssa.Function) []*ssa.Return {
+	var out []*ssa.Return
+	res := g.Signature.Results()
+	errIdx := -1
+	if res.Len() > 0 && isErrorType(res.At(res.Len()-1).Type()) {
+		errIdx = res.Len() - 1
+	}
+	// blocks that are reached by leaving the body of some loop through an edge that is not the
+	// loop header's own exit (a return or a break in the body; the exit of an inner loop counts as
+	// part of the body of the outer one)
+	earlyExit := map[*ssa.BasicBlock]bool{}
+	for _, h := range g.Blocks {
+		if !isLoopHeader(h) {
+			continue
+		}
+		body := map[*ssa.BasicBlock]bool{h: true}
+		var work []*ssa.BasicBlock
+		for _, l := range h.Preds {
+			if h.Dominates(l) && !body[l] {
+				body[l] = true
+				work = append(work, l)
+			}
+		}
+		for len(work) > 0 {
+			b := work[len(work)-1]
+			work = work[:len(work)-1]
+			for _, p := range b.Preds {
+				if !body[p] {
+					body[p] = true
+					work = append(work, p)
+				}
+			}
+		}
+		for b := range body {
+			if b == h {
+				continue
+			}
+			for _, x := range b.Succs {
+				if body[x] {
+					continue
+				}
+				// everything reachable from x without re-entering the loop and without going round an
+				// enclosing loop (what follows the header of an enclosing loop is that loop's business)
+				seen := map[*ssa.BasicBlock]bool{}
+				st := []*ssa.BasicBlock{x}
+				for len(st) > 0 {
+					y := st[len(st)-1]
+					st = st[:len(st)-1]
+					if seen[y] || body[y] || (isLoopHeader(y) && y.Dominates(h)) {
+						continue
+					}
+					seen[y] = true
+					earlyExit[y] = true
+					st = append(st, y.Succs...)
+				}
+			}
+		}
+	}
+	for _, r := range returnsOf(g) {
+		if errIdx >= 0 && (len(r.Results) <= errIdx || !isNilConst(returnedValue(r, errIdx))) {
+			continue
+		}
+		fromLoop := earlyExit[r.Block()]
+		if fromLoop {
+			out = append(out, r)
+		}
+	}
+	return out
+}
+
 func genOrderReference(repo string) error {
 	p, err := LoadProgram(repo, BuildConfig{"linux", "amd64"}, false, nil)
 	if err != nil {
 		return err
 	}
-	ref := orderRef{Note: "per function of the reference tree: pairs of effectful calls of which the second is only reached after the first; generated by `bbcheck -gen-reference`, never written by a check", Pairs: map[string][]string{}, Counts: map[string]map[string]int{}}
+	ref := orderRef{Note: "per function of the reference tree: pairs of effectful calls of which the second is only reached after the first; generated by `bbcheck -gen-reference`, never written by a check", Pairs: map[string][]string{}, Counts: map[string]map[string]int{}, LoopExits: map[string]int{}}
 	for _, rel := range allOrderPkgs() {
-		for _, tf := range p.pkgFuncs(rel) {
+		for _, tf := range p.srcFuncs(rel) {
 			withAnon(tf, func(g *ssa.Function) {
+				if n := len(successExitsFromLoops(g)); n > 0 || hasLoop(g) {
+					ref.LoopExits[FuncName(g)] = n
+				}
 				if ps := orderPairs(g); len(ps) > 0 {
 					ref.Pairs[FuncName(g)] = ps
 					sites := effectfulCallSites(g)
@@ -179,11 +267,18 @@ func runOrderDrift(c *Ctx, pkgs []string) {
 		return id
 	}
 	for _, rel := range pkgs {
-		for _, tf := range c.pkgFuncs(rel) {
+		for _, tf := range c.srcFuncs(rel) {
 			withAnon(tf, func(g *ssa.Function) {
 				fk := refKey(g)
 				if fk == "" {
 					return
+				}
+				if n, knownL := orderRefCache.LoopExits[fk]; knownL {
+					if ex := successExitsFromLoops(g); len(ex) > n {
+						c.Fail(fk, "loops-run-to-completion", c.Pos(ex[len(ex)-1].Pos()), fmt.Sprintf("the function now reports success from inside a loop in %d place(s) (%d on the reference tree): the remaining elements – the other digests of the request, the other backends, the later chunks – are no longer looked at although nothing failed", len(ex), n))
+					} else {
+						c.Pass(fk, "loops-run-to-completion", "-", "no new successful exit from inside a loop")
+					}
 				}
 				want, known := orderRefCache.Pairs[fk]
 				if !known {
